@@ -2,6 +2,7 @@
 import contextlib
 import io
 import json
+import re
 import sys
 
 from lib import vlib
@@ -113,6 +114,18 @@ class Tok:
         return "Tok(%d)" % self.code
 
 
+def fresh_repl():
+    """hy.REPL() reuses the module `__console__` of earlier instances in the same process; a session of this
+    check must start like a new process, so leftovers of earlier sessions are removed"""
+    import hy
+    from hy.repl import REPL
+    repl = REPL()
+    for k in list(repl.locals):
+        if k in (hy.mangle("*e"), "_hy_exc_info") or k.startswith("_c40_") or re.fullmatch(r"q\d+|t|z", k):
+            repl.locals.pop(k, None)
+    return repl
+
+
 def real_session(session, outfail):
     """run the scripted session on a real hy.REPL object whose compiler, code objects and output_fn are scripts"""
     import hy
@@ -129,7 +142,7 @@ def real_session(session, outfail):
         e._c40_id = ident
         return e
 
-    repl = REPL()
+    repl = fresh_repl()
     L = repl.locals
     excs = {}
 
@@ -295,7 +308,7 @@ def oracle(chk, n_sessions):
     sys.excepthook = lambda *a: None
     try:
         for s in range(n_sessions):
-            repl = REPL()
+            repl = fresh_repl()
             L = repl.locals
             st = {"n": s * 100}
             inputs = [gen_input(rng, st) for _ in range(rng.randint(1, 7))]
